@@ -122,7 +122,7 @@ def decoded_text_from_binary(
         size = -1
     rawdata = binary_file.read(size)
     result = rawdata.decode("utf-8", errors="replace")
-    return result.replace("\r\n", "\n")
+    return result.replace("\r\n", "\n").replace("\r", "\n")
 
 
 def _contains_snippet(binary_file: BinaryIO) -> bool:
